@@ -31,7 +31,7 @@ from .. import core
 
 LEVEL = "exploration"
 RULE = (
-    "configs = corpus machines (one per construct of the config language) + hostile machines (quotes, backslashes, newlines, "
+    "configs = corpus machines (one per construct of the config language) + alternative spellings and values equal to engine defaults (invoke ids equal to the state's path / id, reenter false, empty lists) + one machine per position at which a logic name can be referenced (entry, exit, transition, always, after, onDone, invoke handlers, root, guards inside composites of depth <=3 in every operand spelling) + hostile machines (quotes, backslashes, newlines, "
     "code-injection payloads carrying a canary, Python keywords, names colliding after case conversion, unicode) + Stately "
     "exports shipped with the test-suite; each x {class-json, function-json, pythonic-class, pythonic-builder, "
     "pythonic-functional} x async {yes,no} x files {1,2} through the real CLI main(); oracle: exit!=0 => output directory "
@@ -41,8 +41,8 @@ RULE = (
     "generation byte-identical, --check exits 0; distinct_nontrivial = distinct (config, template, async, files) generations"
 )
 BOUNDS = {
-    "quick": "10 corpus + 7 alternative-spelling + 7 hostile + 12 Stately exports x 5 templates x 2 async x 2 file counts",
-    "thorough": "10 corpus + 7 alternative-spelling + 7 hostile + all 104 Stately exports x 5 templates x 2 async x 2 file counts",
+    "quick": "10 corpus + 9 alternative-spelling/explicit-default + 7 hostile + 62 reference-position machines + 12 Stately exports x 5 templates x 2 async x 2 file counts",
+    "thorough": "10 corpus + 9 alternative-spelling/explicit-default + 7 hostile + 172 reference-position machines + all 104 Stately exports x 5 templates x 2 async x 2 file counts",
 }
 ASSUMPTIONS = [
     "the generated runner's main() (demo simulation) is not executed; the logic module / machine builder is",
@@ -111,6 +111,16 @@ def extra() -> Dict[str, Dict[str, Any]]:
                           "onError": [{"target": "c", "guard": "retryable"}, {"target": "d", "actions": [{"type": "report", "params": {"level": 2}}]}]},
                          {"src": "svcTwo", "onDone": {"actions": ["second"]}}], "on": {"N": "b"}},
         "b": {"on": {"N": "a"}}, "c": {"on": {"N": "a"}}, "d": {"on": {"N": "a"}}}}
+    # values that coincide with what the engine would default to - an emitter that "tidies them away" must still be exact
+    e["invoke_ids"] = {"id": "loader", "initial": "loading", "states": {
+        "loading": {"invoke": {"id": "loading", "src": "fetchIt", "onDone": {"actions": ["got"]}}, "on": {"done.invoke.loading": "ready", "N": "nested"}},
+        "ready": {"invoke": {"id": "loader.ready", "src": "fetchIt"}, "on": {"done.invoke.loader.ready": "loading", "N": "loading"}},
+        "nested": {"initial": "inner", "states": {"inner": {"invoke": [{"id": "nested.inner", "src": "fetchIt"}, {"id": "inner", "src": "other"}, {"src": "third"}],
+                                                   "on": {"done.invoke.nested.inner": "#loader.ready", "done.invoke.inner": "#loader.loading"}}}}}}
+    e["explicit_defaults"] = {"id": "ed", "initial": "b", "context": {}, "states": {
+        "a": {"type": "atomic", "entry": [], "on": {"SELF": "a", "SELF2": {"target": "a", "reenter": False, "actions": ["s2"]}, "N": {"target": "b", "actions": []}}},
+        "b": {"type": "compound", "initial": "y", "states": {"x": {"on": {"N": "y"}}, "y": {"on": {"N": "x", "UP": "#ed.a"}, "tags": []}},
+              "on": {"A": "a"}, "after": {"0": {"target": "a", "guard": "never"}}}}}
     e["legacy_keys"] = {"id": "lk", "initial": "a", "states": {
         "a": {"onEntry": ["inA"], "onExit": ["outA"], "on": {"": {"target": "b", "cond": "auto"}, "N": "b"}}, "b": {"on": {"N": "a"}}}}
     return e
@@ -135,6 +145,12 @@ def all_configs(tier: str) -> Dict[str, Dict[str, Any]]:
     out.update({"corpus:" + k: v for k, v in C.corpus().items()})
     out.update({"extra:" + k: v for k, v in extra().items()})
     out.update({"hostile:" + k: v for k, v in hostile().items()})
+    # one machine per place a logic name can be referenced (shared with C19): the stub / binding must exist wherever the name sits
+    from .c19 import reference_positions
+    for label, role, cfg in reference_positions():
+        if tier == "quick" and label.count(">") >= 2:
+            continue
+        out["pos:" + label] = cfg
     out.update(stately(12 if tier == "quick" else None))
     return out
 
